@@ -28,13 +28,17 @@ def gen_case(rng):
     return {"op": "extrema", "fn": fn, "spin": spin, "kind": kind, "labels": labels, "terms": terms}
 
 
-def exhaustive_cases(polys):
+def exhaustive_cases(polys, only_general_dict=False):
     out = []
     for p in polys:
         for fn in sorted(FNS):
             spin, quad = FNS[fn]
-            for kind, labels in (("dict", ["a", (1, 2)]), ("PCSO" if spin else "PCBO", ["x", 3]) if not quad else
-                                 ("QUSO" if spin else "QUBO", ["x", 3]), (("QUSOMatrix" if spin else "QUBOMatrix"), [0, 2])):
+            if only_general_dict and not fn.startswith("approximate_pu"):
+                continue
+            for kind, labels in (("dict", ["a", (1, 2), 0]), ("PCSO" if spin else "PCBO", ["x", 3, "y"]) if not quad else
+                                 ("QUSO" if spin else "QUBO", ["x", 3, "y"]), (("QUSOMatrix" if spin else "QUBOMatrix"), [0, 2, 3])):
+                if only_general_dict and kind != "dict":
+                    continue
                 out.append({"op": "extrema", "fn": fn, "spin": spin, "kind": kind, "labels": labels, "terms": pure.instantiate(p, labels),
                             "exhaustive": True})
     return out
@@ -91,7 +95,7 @@ def run(tier, out, replay=None):
             ex = exhaustive_cases(polys)
             if tier == "thorough":
                 polys3, udesc3 = pure.universe("3", wd)
-                ex += [c for c in exhaustive_cases(polys3) if c["kind"] == "dict" and c["fn"].startswith("approximate_pu")]
+                ex += exhaustive_cases([p for p in polys3 if any(len(k) == 3 for k in p)], only_general_dict=True)
                 udesc = [udesc, udesc3]
             cases = ex + cases
             out.set("exhaustive_universe", udesc)
